@@ -156,7 +156,7 @@ func applyHWrites(n *node, m *model, ws []LStep) {
 			m.set(a, k, w.val(), true)
 		case "add":
 			n.sl.AddState(ad, []byte(k), w.val())
-			m.set(a, k, w.val(), false)
+			m.set(a, k, w.val(), true)
 		case "del":
 			n.sl.SetState(ad, []byte(k), nil, nil)
 			m.set(a, k, nil, true)
